@@ -107,6 +107,9 @@ func (w *Writer) writeFileConfig(res *Result) {
 		if cfg.File {
 			// Omit internal config.
 			fmt.Fprintf(&w.buf, "%s: %s\n", key, cfg.Value)
+		} else if have.File {
+			// The key turned internal: a reader must forget it.
+			fmt.Fprintf(&w.buf, "%s:\n", key)
 		}
 		have.Value = append(have.Value[:0], cfg.Value...)
 		have.File = cfg.File
